@@ -101,3 +101,12 @@ func DebugUniversalE6(r *Run) {
 		}
 	}
 }
+
+// DebugGuarded lists the E11-guarded violations over all subject functions.
+func DebugGuarded(r *Run) {
+	for _, f := range r.P.SubjectFuncs() {
+		for _, u := range r.unguardedErrorSites(f) {
+			fmt.Printf("%s\t%s\t%s\n", u.Key, r.P.Pos(u.Call.Pos()), u.Via)
+		}
+	}
+}
